@@ -7,23 +7,33 @@ import AsynqModel.Proofs.AsyncioFixed
 
 Theorems about the model `AsynqModel.Asyncio` (asynq/asynq_to_async.py, asynq/decorators.py) for EVERY batch-free program:
 every call kind (function, method, pure, async_proxy, non-generator), with or without an explicit `asyncio_fn`, every
-nesting of tuples / lists / dicts, raises and try/except at every yield, `return` and `asynq.result()`.
+nesting of tuples / lists / dicts of ANY width and depth, raises (of `Exception`s and of BaseException-only errors) and
+try/except at every yield, `return` and `asynq.result()` of ANY kind of object (`valueKind`).
+
+The statements named `_partial` carry the hypothesis `p.safe` (every handler of the program is `except Exception`, or the
+program raises no BaseException-only error):
+a BaseException-only error of an awaited child is thrown into the generator by asynq but leaves the `while` loop of
+`convert_asynq_to_async` (`except Exception as exc`) without being delivered, so a handler that would catch it
+(`except BaseException`, bare `except`, `finally`) behaves differently: `C15_base_handler_counterexample`.
 -/
 namespace AsynqModel.Asyncio
 open AsynqModel.Core (Val)
 
 /-- **equivalence** (programs without plain synchronous calls): awaiting `fn.asyncio(args)` - started in any context
     state `s` - gives exactly the value / exception of `fn(args)`, which is also what `fn.asynq(args).value()` gives -/
-theorem C15_equiv (c : Call) (p : Prog) (s s' : St) (hs : p.noSync = true) (hm' : s'.mode = false) :
+theorem C15_equiv_partial (c : Call) (p : Prog) (s s' : St) (hs : p.noSync = true) (hx : p.safe = true)
+    (hm' : s'.mode = false) :
     (topA c p s).1 = (topCall c p s').1 ∧ (topValue c p s').1 = (topCall c p s').1 := by
-  have h := equiv_noRes c (Prog.unres p) s s' (Prog.unres_noRes p) (by rw [Prog.unres_noSync]; exact hs) hm'
+  have h := equiv_noRes c (Prog.unres p) s s' (Prog.unres_noRes p) (by rw [Prog.unres_noSync]; exact hs)
+    (by rw [Prog.unres_safe]; exact hx) hm'
   simpa [topA_unres, topCall_unres, topValue_unres] using h
 
 /-- **equivalence, semantic form**: a program may contain plain synchronous calls; if the asyncio run attempts none of
     them (none is logged), it still gives exactly the outcome of `fn(args)` -/
-theorem C15_equiv_run (c : Call) (p : Prog) (s' : St) (hm' : s'.mode = false)
+theorem C15_equiv_run_partial (c : Call) (p : Prog) (s' : St) (hx : p.safe = true) (hm' : s'.mode = false)
     (hn : (topA c p {}).2.log.any isSyncX = false) : (topA c p {}).1 = (topCall c p s').1 := by
-  have h := equiv_run_noRes c (Prog.unres p) s' (Prog.unres_noRes p) hm' (by simpa [topA_unres] using hn)
+  have h := equiv_run_noRes c (Prog.unres p) s' (Prog.unres_noRes p) (by rw [Prog.unres_safe]; exact hx) hm'
+    (by simpa [topA_unres] using hn)
   simpa [topA_unres, topCall_unres] using h
 
 /-- `asynq.result(v)` is `return v` on both paths (the former counterexample) -/
@@ -57,7 +67,7 @@ theorem C15_sync_refused (gen : Bool) (t : Nat) (env : List Val) (caught : Optio
     (c : Call) (child k h : Prog) (s : St) (hm : s.mode = true) :
     bodyA gen t env caught i (.sync c child k h) s =
       bodyA gen t env (some .syncRefused) i h (s.emit (.syncX t (.err .syncRefused))) := by
-  simp [bodyA, hm]
+  simp [bodyA, hm, Err.isBase]
 
 /-- the same call made from the top level while the flag is on -/
 theorem C15_sync_refused_top (c : Call) (p : Prog) (s : St) (hm : s.mode = true) :
@@ -90,9 +100,53 @@ theorem C15_asyncio_run_good (c : Call) (p : Prog) : (topA c p {}).2.log.all evO
 
 /-- **C15 as a whole** (ALL programs): the observations of the model under all five ways of running a program are accepted
     by the observer `spec`, the same Boolean function the check evaluates on the observations of the real implementation -/
-theorem C15_spec_holds (c : Call) (p : Prog) : spec (observe c p) = true := by
-  have h := spec_holds_noRes c (Prog.unres p) (Prog.unres_noRes p)
+theorem C15_spec_holds_partial (c : Call) (p : Prog) (hx : p.safe = true) : spec (observe c p) = true := by
+  have h := spec_holds_noRes c (Prog.unres p) (Prog.unres_noRes p) (by rw [Prog.unres_safe]; exact hx)
   simpa [observe_unres] using h
+
+/-! ## values are opaque; a failure raised at a yield is the failure of one of the awaitables -/
+
+/-- **`_gather` returns the values untouched** (ALL programs, ALL kinds of value): if every awaitable yielded together ended
+    with a value - an exception INSTANCE returned as a value included - the yield receives exactly those values, in order -/
+theorem C15_gather_all_ok (l : YsL) (s : St) (h : (elemsA l s).all Out.isOk = true) :
+    ∃ vs, (gatherA l s).1 = .ok vs ∧ elemsA l s = vs.map Out.ok := by
+  rw [gatherA_firstFailure]; exact firstFailure_ok _ h
+
+/-- **nothing is raised that did not fail**: an error raised by `_gather` is the outcome of one of the awaitables -/
+theorem C15_failure_is_an_element (l : YsL) (s : St) (e : Err) (h : (gatherA l s).1 = .err e) :
+    Out.err e ∈ elemsA l s := by
+  rw [gatherA_firstFailure] at h; exact firstFailure_err_mem _ e h
+
+/-! ## BaseException-only errors -/
+
+/-- asyncio side (the code as it is): a BaseException-only error of an awaited structure is never delivered to the body -
+    whatever its handler is, the coroutine ends with that error -/
+theorem C15_base_error_leaves_asyncio (t : Nat) (env : List Val) (caught : Option Err) (i : Nat) (hb : Bool) (y : Ys)
+    (k h : Prog) (s : St) (e : Err) (hy : (resolveA y s).1 = .err e) (he : e.isBase = true) :
+    (bodyA true t env caught i (.yld hb y k h) s).1 = .err e := by
+  unfold bodyA
+  rcases hA : resolveA y s with ⟨r, s1⟩
+  rw [hA] at hy; simp only at hy; subst hy
+  simp [he]
+
+/-- asynq side: the same error is thrown into the generator; an `except BaseException` handler runs -/
+theorem C15_base_error_delivered_by_asynq (t : Nat) (env : List Val) (caught : Option Err) (i : Nat) (y : Ys)
+    (k h : Prog) (s : St) (e : Err) (hy : (ysR y s).1 = .err e) :
+    (bodyR true t env caught i (.yld true y k h) s).1 =
+      (bodyR true t env (some e) (i + 1) h ((ysR y s).2.emit (.run t (i + 1) ((ysR y s).2.dc y) (ysR y s).2.mode (.err e)))).1 := by
+  conv => lhs; unfold bodyR
+  rcases hR : ysR y s with ⟨r, s1⟩
+  rw [hR] at hy; simp only at hy; subst hy
+  simp
+
+/-- **counterexample to the unrestricted statement** (genuine divergence of the code as it is): the body
+    `try: yield child.asynq() / except BaseException: return 2` with a child raising a BaseException-only error returns 2
+    under `fn(args)` and raises the error under `await fn.asyncio(args)`; the observer rejects it -/
+theorem C15_base_handler_counterexample :
+    let c : Call := { kind := .gen, afn := false, label := 0 }
+    let p : Prog := .yld true (.task { kind := .gen, afn := false, label := 1 } (.raiseB 1)) (.ret 1) (.ret 2)
+    (topCall c p {}).1 = .ok (.node 2 []) ∧ (topA c p {}).1 = .err (.b 1) ∧ spec (observe c p) = false := by
+  decide
 
 /-! ## non-vacuity -/
 
@@ -103,12 +157,12 @@ private def cP (n : Nat) : Call := { kind := .proxy, afn := false, label := n }
 /-- a dict with two failing entries (the first in structure order is the deeper one) and a succeeding one, caught, then
     a further yield in the handler -/
 private def demo : Prog :=
-  .yld (.dict [7, 8, 9]
-      (.cons (.task (cM 1) (.yld (.lst (.cons (.const 1) .nil)) (.raise 4) .reraise))
+  .yld false (.dict [7, 8, 9]
+      (.cons (.task (cM 1) (.yld false (.lst (.cons (.const 1) .nil)) (.raise 4) .reraise))
       (.cons (.task (cG 2) (.raise 5))
       (.cons (.tup (.cons (.task (cP 3) (.ret 9)) (.cons .none .nil))) .nil))))
     (.ret 1)
-    (.yld (.task (cG 4) (.ret 2)) (.ret 3) .reraise)
+    (.yld false (.task (cG 4) (.ret 2)) (.ret 3) .reraise)
 
 example : (topA (cG 0) demo {}).1 = .ok (.node 3 [.node 2 []]) := by decide
 example : (topCall (cG 0) demo {}).1 = .ok (.node 3 [.node 2 []]) := by decide
@@ -127,8 +181,25 @@ example : spec ((observe (cG 0) demo).map (fun ob =>
   decide
 
 /-- `asynq.result()` anywhere: the asyncio run returns what `fn(args)` returns and the observer accepts -/
-example : (topA (cG 0) (.yld (.lst (.cons (.task (cG 1) (.res 5)) .nil)) (.res 1) .reraise) {}).1 =
+example : (topA (cG 0) (.yld false (.lst (.cons (.task (cG 1) (.res 5)) .nil)) (.res 1) .reraise) {}).1 =
     .ok (.node 1 [.lst [.node 5 []]]) := by decide
-example : spec (observe (cG 0) (.yld (.lst (.cons (.task (cG 1) (.res 5)) .nil)) (.res 1) .reraise)) = true := by decide
+example : spec (observe (cG 0) (.yld false (.lst (.cons (.task (cG 1) (.res 5)) .nil)) (.res 1) .reraise)) = true := by decide
+
+/-- a BaseException-only error first in structure order, beside an ordinary failure, handlers `except Exception`: both engines
+    let it through to the caller (after all siblings have finished), and the observer accepts -/
+private def demoB : Prog :=
+  .yld false (.lst (.cons (.task (cG 1) (.yld false .none (.raiseB 1) .reraise)) (.cons (.task (cM 2) (.raise 2)) .nil)))
+    (.ret 1) (.ret 2)
+example : (topA (cG 0) demoB {}).1 = .err (.b 1) ∧ (topCall (cG 0) demoB {}).1 = .err (.b 1) := by decide
+example : demoB.safe = true ∧ spec (observe (cG 0) demoB) = true := by decide
+/-- the ordinary failure first: the handler runs in both engines although a BaseException-only error is among the siblings -/
+example : (topA (cG 0) (.yld false (.lst (.cons (.task (cM 2) (.raise 2)) (.cons (.task (cG 1) (.raiseB 1)) .nil))) (.ret 1) (.ret 2)) {}).1
+    = .ok (.node 2 []) := by decide
+/-- a handler that catches BaseException in a program that raises none: covered by the `_partial` statements -/
+example : (Prog.yld true (.task (cG 1) (.raise 2)) (.ret 1) (.ret 2)).safe = true := by decide
+/-- an exception INSTANCE returned as a value (tag 10-19: `valueKind = exc`) is delivered as a value, in a list too -/
+example : valueKind 12 = .exc ∧
+    (topA (cG 0) (.yld false (.lst (.cons (.task (cG 1) (.ret 12)) .nil)) (.ret 1) (.ret 2)) {}).1 =
+      .ok (.node 1 [.lst [.node 12 []]]) := by decide
 
 end AsynqModel.Asyncio
